@@ -340,7 +340,7 @@ func insertionCase(g *gen.G, p *big.Int, d, b int, tree *ref.Tree, nIns int) (st
 func deletionCase(g *gen.G, p *big.Int, d, b int, tree *ref.Tree, nIns int) (string, string, string) {
 	size := new(big.Int).Lsh(big.NewInt(1), uint(d))
 	pre := tree.Root()
-	muts := []string{"none", "none", "none", "dup-old", "dup-zero", "empty", "allpad", "mixpad", "toolarge", "u32max", "stale", "corrupt", "wrongitem", "wrongpost", "pad-genuine", "pad-genuine"}
+	muts := []string{"none", "none", "none", "dup-old", "dup-zero", "empty", "allpad", "mixpad", "toolarge", "u32max", "stale", "corrupt", "wrongitem", "wrongpost", "pad-genuine", "pad-genuine", "zeroitem-badpath"}
 	mut := muts[g.Intn(len(muts))]
 	idxs := make([]*big.Int, b)
 	ids := make([]*big.Int, b)
@@ -353,6 +353,7 @@ func deletionCase(g *gen.G, p *big.Int, d, b int, tree *ref.Tree, nIns int) (str
 		}
 		return o
 	}
+	zslot := g.Intn(b)
 	for i := 0; i < b; i++ {
 		var leaf uint64
 		if nIns > 0 {
@@ -376,6 +377,14 @@ func deletionCase(g *gen.G, p *big.Int, d, b int, tree *ref.Tree, nIns int) (str
 		if pad {
 			idxs[i] = new(big.Int).Add(size, g.Below(size))
 			ids[i] = g.Field(p)
+			proofs[i] = garbage()
+			continue
+		}
+		if mut == "zeroitem-badpath" && i == zslot {
+			// a real index presenting the empty value with a path that authenticates nothing, the
+			// root carried on as if the slot were padding: only an index >= 2^depth makes padding
+			idxs[i] = new(big.Int).SetUint64(leaf)
+			ids[i] = big.NewInt(0)
 			proofs[i] = garbage()
 			continue
 		}
